@@ -68,6 +68,9 @@ def isMetricFilter (m : SModel) (f : Expr) : Bool :=
 def rowFilters (m : SModel) (q : Query) : List Expr :=
   ((q.filters.flatMap Expr.conjuncts).filter fun f => !isMetricFilter m f).map (Expr.subst (resolve m))
 
+/-- the primary key as one expression -/
+def pkExpr (m : SModel) : Expr := match m.pk with | [k] => .col k | ks => .keyConcat ks
+
 def countsRows (ms : Measure) : Bool := ms.agg == .count && (ms.sql.isNone || ms.star)
 def countsKeys (ms : Measure) : Bool := ms.agg == .countDistinct && ms.sql.isNone
 
@@ -121,7 +124,7 @@ def flatAgg (m : SModel) (ms : Measure) (name : String) : FlatAgg :=
     | [] => none
     | f :: fs => some (fs.foldl (fun acc g => Expr.bin .and acc (g.mapCols stripPlaceholder)) (f.mapCols stripPlaceholder))
   if countsRows ms then ⟨.count, cond, .lit (.num 1), name⟩
-  else if countsKeys ms then ⟨.countDistinct, cond, (match m.pk with | [k] => .col k | ks => .keyConcat ks), name⟩
+  else if countsKeys ms then ⟨.countDistinct, cond, pkExpr m, name⟩
   else ⟨ms.agg, cond, measureExpr m ms, name⟩
 
 def flat (m : SModel) (q : Query) : FlatQuery :=
@@ -150,7 +153,7 @@ def ungrouped (m : SModel) (q : Query) (rows : List Row) : List Row :=
     (measuresOf m q).map fun (ms, n) =>
       (n, if passesMetricFilters ms r then
             (if countsRows ms then .num 1
-             else if countsKeys ms then (match m.pk with | [k] => r.get k | ks => evalKeyConcat r ks)
+             else if countsKeys ms then (pkExpr m).eval r
              else (measureExpr m ms).eval r)
           else .null)
 
